@@ -574,7 +574,10 @@ pub fn run_backlog(id: usize, rng: &mut Rng) -> String {
     let conns = if id % 40 == 17 { 300 } else { *rng.pick(&[1usize, 1, 2, 6, 12, 20]) };
     let per = if conns <= 2 { rng.range(9, 30) } else { rng.range(1, 3) };
     let take = *rng.pick(&[0usize, 0, 1, 3]);
-    let badver = rng.chance(1, 3);
+    // 0, 1: none; 2: such a request opens every other connection; 3: it comes last there, behind requests nobody received
+    let badmode = rng.below(4);
+    let badver = badmode == 2;
+    let badlast = badmode == 3;
     let ((queued, answered, taken, base, after_drop, after, left, refused), rep) = sched::run(&cfg, move || {
         let live = || sched::threads().iter().filter(|(n, st)| (n.starts_with("task_pool.rs") || n.starts_with("lib.rs")) && !matches!(st, TState::Finished)).count();
         let base = live();
@@ -595,6 +598,10 @@ pub fn run_backlog(id: usize, rng: &mut Rng) -> String {
                     let mut w = &s;
                     let _ = w.write(format!("GET /r{} HTTP/1.1\r\nHost: x\r\n\r\n", c * 100 + k).as_bytes());
                     queued += 1;
+                }
+                if badlast && c % 2 == 0 {
+                    let mut w = &s;
+                    let _ = w.write(b"GET /v HTTP/2.0\r\nHost: x\r\n\r\n");
                 }
                 clients.push(s);
             }
@@ -651,7 +658,8 @@ pub fn run_backlog(id: usize, rng: &mut Rng) -> String {
         (queued, answered, taken, base, after_drop, after, left, refused)
     });
     format!(
-        "srv id={} kind=backlog conns={} n={} taken={} answered={} base={} after_drop={} after={} refused={} aborted={} clock={} left={}",
-        id, conns, queued, taken, answered, base, after_drop, after, if refused { 1 } else { 0 }, if rep.aborted { 1 } else { 0 }, rep.clock, left.join(",")
+        "srv id={} kind=backlog conns={} n={} taken={} answered={} base={} after_drop={} after={} refused={} aborted={} clock={} badlast={} nbad={} left={}",
+        id, conns, queued, taken, answered, base, after_drop, after, if refused { 1 } else { 0 }, if rep.aborted { 1 } else { 0 }, rep.clock,
+        if badlast { 1 } else { 0 }, if badlast { (conns + 1) / 2 } else { 0 }, left.join(",")
     )
 }
